@@ -364,5 +364,31 @@ def score (r : Fit α) (x y : List α) : Option α := do
   let pr ← predict r x
   deviance r.family y pr
 
+/-! ### the remaining public methods of `ExponentialFamily` and `GLM::set_coef` -/
+
+/-- the literals `0.5`, `0.25` (exact in every instance: `1/2`, `1/4`) -/
+def half : α := 1 / two
+def quarter : α := 1 / (two * two)
+
+/-- `initial_working_response(y)`: `y` for the Gaussian family, `(y - 0.5) / 0.25` for the Bernoulli family (the IRLS
+working response `eta + (y - mu) / (mu (1 - mu))` at `eta = 0`, `mu = 1/2`), `None` for the other four. -/
+def initialWorkingResponse (f : Family) (y : List α) : Option (List α) :=
+  match f with
+  | .gaussian => some y
+  | .bernoulli => some (Vops.vs (· / ·) (Vops.vs (· - ·) y half) quarter)
+  | _ => none
+
+/-- `initial_working_weights(y)`: `ones(n) / n` (Gaussian), `0.25 * ones(n) / n` (Bernoulli: `mu (1 - mu)` at `mu = 1/2`,
+normalised by the number of observations), `None` for the other four. -/
+def initialWorkingWeights (f : Family) (y : List α) : Option (List α) :=
+  match f with
+  | .gaussian => some (Vops.vs (· / ·) (List.replicate y.length 1) (y.length : α))
+  | .bernoulli => some (Vops.vs (· / ·) (Vops.sv (· * ·) quarter (List.replicate y.length 1)) (y.length : α))
+  | _ => none
+
+/-- `set_coef(coefs)` on a fitted object: only the coefficient vector is replaced; deviance, information matrix, `n`, `p`,
+weights and offsets stay as the last `fit` left them. -/
+def setCoef (r : Fit α) (c : List α) : Fit α := { r with coef := c }
+
 end model
 end Cv.Glm
